@@ -277,11 +277,11 @@ def _TN(name, inst, tier="quick", **kw):
 PROPS["C16"] = dict(
     functions=["TimeTrigger::get_next_time", "TimeTrigger::local_after", "TimeTrigger::new", "<TimeTrigger as Trigger>::trigger",
                "chrono calendar arithmetic (NaiveDate/NaiveDateTime/DateTime), executed for real"],
-    bounds="units Second/Minute/Hour/Day (plain and modulated) and Week/Month/Year (plain, thorough tier); zones UTC, Asia/Kolkata, America/New_York 2024, Europe/Berlin 2024, "
+    bounds="units Second/Minute/Hour/Day (plain and modulated), Week (plain; modulated in UTC 2024) and Month/Year (plain); zones UTC, Asia/Kolkata, America/New_York 2024, Europe/Berlin 2024, "
            "Australia/Lord_Howe 2024, America/Sao_Paulo 2018, America/Havana 2024 (real transition instants); every second of "
            "the table year as the current instant; multiplier 1..3 as a solver variable and 5, 7, 13, 24, 60, 100 as instances; "
            "modulate on/off per instance; trigger(): 1-2 arrivals at symbolic later instants",
-    outside="modulated Week/Month/Year (ISO week numbering, month-of-year arithmetic beyond the table year), "
+    outside="modulated Month/Year (month-of-year arithmetic beyond the table year), modulated Week in other zones and in years that do not start on a Monday, "
             "max_random_delay > 0 (thread-local RNG), sub-second instants, other zones and years, n = 0 and absurd multipliers",
     assumptions=[
         "E5: <Local as TimeZone>::offset_from_{utc,local}_datetime are replaced by a two-transition zone model that mirrors "
@@ -314,6 +314,7 @@ PROPS["C16"] = dict(
         _TN("trigger_utc_minute_2", "UTC, Minute: new() + 2 trigger() calls", tier="thorough", bound="unwind 5", timeout=3600, mem_gb=14),
         _TN("next_utc_week", "UTC, Week, plain, n in 1..3", tier="thorough", bound="unwind 14", timeout=1800),
         _TN("next_berlin_week", "Europe/Berlin, Week, plain", bound="unwind 14", timeout=1800),
+        _TN("next_utc_week_mod", "UTC 2024, Week, modulate (ISO week index), n in 1..3; the expected boundary may lie past the year end", bound="unwind 14", timeout=1800),
         _TN("next_kolkata_month", "Asia/Kolkata, Month, plain (result inside the table year)", bound="unwind 14", timeout=1800),
         _TN("next_ny_month", "America/New_York, Month, plain", bound="unwind 14", timeout=1800),
         _TN("next_utc_year", "UTC, Year, plain, n in 1..3", tier="thorough", bound="unwind 14", timeout=1800),
@@ -759,7 +760,7 @@ WRITE_ALL_LOOP = [(r"^<log4rs::.* as std::io::Write>::write_all$", "*", 3)]  # c
 _u = dict(timeout=900, mem_gb=10, unwindset=WRITE_REC + SINK_LOOPS + BT_LOOPS)
 _f = dict(timeout=1800, mem_gb=12, unwindset=[(r"^<c10_width::Sink as std::io::Write>::write", "*", 5)] + WRITE_REC + SINK_LOOPS + BT_LOOPS + WRITE_ALL_LOOP)
 _ft = dict(_f, tier="thorough", timeout=5400, mem_gb=16)
-_fs = dict(_ft, unwindset=[(r"^<c10_width::Sink as std::io::Write>::write", "*", 5)] + WRITE_REC + SINK_LOOPS + BT_LOOPS)  # short writes: write_all loops up to the piece length
+_fs = dict(_f, unwindset=[(r"^<c10_width::Sink as std::io::Write>::write", "*", 5)] + WRITE_REC + SINK_LOOPS + BT_LOOPS)  # short writes: write_all loops up to the piece length
 _s = dict(timeout=900, mem_gb=10)
 
 _one = [("level", "{l}: the level's name"), ("message", "{m}: the message arguments"), ("module", "{M}: module path or ???"),
